@@ -144,7 +144,8 @@ PURE_EXTERNALS = {
 
 class SX:
     def __init__(self, mod, handler_arg=0, emitters=(), inline=(), fork_selects=True, bit_args=(),
-                 cstr_args=(), fmt_base=None, join_at=None, wide_syms=(), nonneg_args=None):
+                 cstr_args=(), fmt_base=None, join_at=None, wide_syms=(), nonneg_args=None, cut_blocks=(),
+                 bitword_phis=None, static_exit=None, pure_by_args=(), models=None):
         self.mod = mod
         self.handler_arg = handler_arg
         self.emitters = set(emitters)        # defined callees summarised as "emits ret characters"
@@ -156,6 +157,13 @@ class SX:
         self.join_at = join_at               # merge (hull) the states at a block when there are more than this
         self.wide = set(wide_syms)           # 64-bit symbols: trunc below 64 bits yields an unknown value
         self.nonneg_args = nonneg_args or {} # emitter callee -> argument positions that must be >= 0 at the call
+        self.cut_blocks = set(cut_blocks)    # (fn name, block name): execution stops before the terminator of the block
+        self.cut_states = {}                 # block name -> states collected there (final passes only)
+        self.bitword_phis = bitword_phis or {}   # (fn name, phi id) -> mask of the bits that may be set: loop-head value
+                                             # is a word of separate 0/1 symbols instead of one unknown
+        self.static_exit = static_exit       # callable(fn, loop) -> every exit test of the loop is loop-invariant
+        self.pure_by_args = set(pure_by_args)    # pure externals whose result symbol is named by the argument values
+        self.models = models or {}           # callee -> f(sx, st, fn, inst, args) -> value | None
         self.alloca_size = {}
         self.digit_probes = []               # (fn name, stored value, remainder value, state) from the digit loop body
         self.store_log = None
@@ -318,6 +326,10 @@ class SX:
             else:
                 return ('opq', self.opq('pcmp', pred, a.key(), b.key()))
         if isinstance(a, Lin) and isinstance(b, Lin):
+            if a.is_const() and b.is_const() and (pred[0] != 'u' or (a.c >= 0 and b.c >= 0)):
+                x, y = a.c, b.c
+                return K({'eq': x == y, 'ne': x != y, 'lt': x < y, 'le': x <= y, 'gt': x > y, 'ge': x >= y}
+                         [pred if pred in ('eq', 'ne') else pred[1:]])
             if pred in ('ult', 'ule', 'ugt', 'uge'):
                 pred = 's' + pred[1:]      # offsets / counts: callers guarantee non-negative operands
             return ('cmp', pred, a, b)
@@ -394,6 +406,11 @@ class SX:
                 out.extend(self.assume(s, c[2], want))
             return out
         pred, a, b = c[1], c[2], c[3]
+        d = self.decide(st, c)
+        if d is not None:
+            # already decided (in particular: a comparison of two constants, which the feasibility test below would
+            # not see because it looks only at constraints that mention a symbol)
+            return [st] if d == truth else []
         if not truth:
             pred = {'eq': 'ne', 'ne': 'eq', 'slt': 'sge', 'sge': 'slt', 'sgt': 'sle', 'sle': 'sgt'}[pred]
         syms = set(a.t.keys()) | set(b.t.keys())
@@ -457,6 +474,43 @@ class SX:
             i += 1
         return r
 
+    @staticmethod
+    def bw_decode(a):
+        """Lin -> (constant part, {bit index: symbol}) when a is a word whose unknown bits are separate 0/1 symbols"""
+        if not isinstance(a, Lin) or a.c < 0:
+            return None
+        bits = {}
+        for s, c in a.t.items():
+            if not (isinstance(s, tuple) and len(s) == 3 and s[1] == 'bit' and c == (1 << s[2])):
+                return None
+            bits[s[2]] = s
+        if any((a.c >> n) & 1 for n in bits):
+            return None
+        return a.c, bits
+
+    @staticmethod
+    def bw_encode(c, bits):
+        r = Lin(c)
+        for n, s in bits.items():
+            r = r + Lin.sym(s) * (1 << n)
+        return r
+
+    def bw_op(self, op, a, b, width):
+        """and / or of a bit-decomposed word with a constant, else None"""
+        for (x, y) in ((a, b), (b, a)):
+            if not (isinstance(y, Lin) and y.is_const()) or not x.t:
+                continue
+            d = self.bw_decode(x)
+            if d is None:
+                continue
+            c, bits = d
+            k = y.c & ((1 << width) - 1)
+            if op == 'and':
+                return self.bw_encode(c & k, {n: s for n, s in bits.items() if (k >> n) & 1})
+            if op == 'or':
+                return self.bw_encode(c | k, {n: s for n, s in bits.items() if not (k >> n) & 1})
+        return None
+
     def tracked_sym(self, a):
         if isinstance(a, Lin) and a.c == 0 and len(a.t) == 1:
             (s, c), = a.t.items()
@@ -502,6 +556,10 @@ class SX:
                     return Lin(x // y)
                 if op in ('urem', 'srem') and y > 0 and x >= 0:
                     return Lin(x % y)
+            if op in ('and', 'or'):
+                r = self.bw_op(op, a, b, i.bits or 32)
+                if r is not None:
+                    return r
             if op == 'and':
                 for (x, y) in ((a, b), (b, a)):
                     s = self.tracked_sym(x)
@@ -598,6 +656,11 @@ class SX:
                 st.cons.add_le(r, n)
             st.env[key] = r
             return [st]
+        if callee in self.models:
+            r = self.models[callee](self, st, fn, i, args)
+            if r is not None:
+                st.env[key] = r
+                return [st]
         target = self.mod.functions.get(callee)
         if target is not None and not target.decl:
             if callee in self.inline:
@@ -623,7 +686,9 @@ class SX:
                 for k in [k for k in st.mem if k[0] == a.base]:
                     del st.mem[k]
         if not isvoid:
-            if i.ty.get('k') == 'int':
+            if i.ty.get('k') == 'int' and callee in self.pure_by_args:
+                st.env[key] = Lin.sym(self.opq('ext', callee, tuple(vkey(a) for a in args)))
+            elif i.ty.get('k') == 'int':
                 st.env[key] = Lin.sym(self.opq('ext', callee, fn.name, i.id))
             else:
                 st.env[key] = self.top(i, fn)
@@ -1098,6 +1163,10 @@ class SX:
             states = nxt
             if not states:
                 return []
+        if (fn.name, b.name) in self.cut_blocks:
+            if not self.recording:
+                self.cut_states.setdefault(b.name, []).extend(states)
+            return []
         out = []
         for s in states:
             out.extend(self.exec_term(fn, b.term, s, rets))
@@ -1309,7 +1378,17 @@ class SX:
             return self.run_countdown(fn, L, info, st, frm)
         if info['kind'] == 'digits':
             return self.run_digits(fn, L, info, st, frm)
+        if self.static_exit is not None and not info['emits'] and self.static_exit(fn, L):
+            return self.run_static(fn, L, st, frm, rets)
         return self.run_generic(fn, L, info, st, frm, rets)
+
+    def run_static(self, fn, L, st, frm, rets):
+        """a loop all of whose exit tests are loop-invariant either leaves during its first pass or never: the exit
+        states are those of one pass from the entry values (the paths that reach the latch do not return)"""
+        for ph, v in self.phi_init(fn, L['header'], st, frm).items():
+            st.env[('i', ph)] = v
+        latches, exits = self.run_region(fn, L, [(st, frm)], rets)
+        return exits
 
     def phi_init(self, fn, H, st, frm):
         inits = {}
@@ -1484,7 +1563,9 @@ class SX:
             for ph in phis:
                 v0 = inits.get(ph.id)
                 sym = Lin.sym(self.opq('h', fn.name, ph.id))
-                if isinstance(v0, Lin):
+                if (fn.name, ph.id) in self.bitword_phis:
+                    h.env[('i', ph.id)] = self.bits_of(h, self.opq('h', fn.name, ph.id), self.bitword_phis[(fn.name, ph.id)])
+                elif isinstance(v0, Lin):
                     h.env[('i', ph.id)] = sym
                     hs[ph.id] = (sym, v0)
                 elif isinstance(v0, P) and ph.id not in badptr:
@@ -1508,6 +1589,7 @@ class SX:
             return h
         badptr = set()
         cands = None
+        havoc = any((fn.name, b.name) in self.cut_blocks for b in L['blocks'])
         for rnd in range(40):
             hs.clear()
             h = head_state()
@@ -1518,6 +1600,9 @@ class SX:
                 if emits:
                     sub0[next(iter(hE.t))] = E0
                 cands = [(d, c) for (d, c) in cands if all(st.cons.entails(x.subst(sub0)) for x in c)]
+                if havoc:
+                    # the body is cut short: not every latch is reached, so no invariant can be established
+                    cands = []
             for (d, c) in cands:
                 for x in c:
                     h.cons.add(x)
